@@ -26,11 +26,6 @@ def hasNonNull (k : Bytes) : PMembers → Prop
   | .nil _ => False
   | .cons k' _ v rest => (k' = k ∧ v ≠ .null) ∨ hasNonNull k rest
 
-/-- a later member with key `k` -/
-def hasKey (k : Bytes) : PMembers → Prop
-  | .nil _ => False
-  | .cons k' _ _ rest => k' = k ∨ hasKey k rest
-
 /-- the keys of a oneof body other than `"!type"` (`foundKeys`) -/
 def oneofKeys : PMembers → List Bytes
   | .nil _ => []
@@ -106,7 +101,7 @@ def FaultE (c : Cfg) (item : Field) : PElems → Prop
 /-- the values of a map contain a fault -/
 def FaultMap (c : Cfg) (item : Field) : PMembers → Prop
   | .nil term => term ≠ .closed
-  | .cons k _ v rest => v = .null ∨ FaultV c item v ∨ hasKey k rest ∨ FaultMap c item rest
+  | .cons _ _ v rest => v = .null ∨ FaultV c item v ∨ FaultMap c item rest
 end
 
 /-- the document `t` for root `root` contains a fault -/
@@ -121,5 +116,105 @@ def FaultRoot (c : Cfg) (root : String) (t : PTree) : Prop :=
     | .obj ms => FaultO c ops ms ∨ FaultOneofPost ops ms
     | _ => True
   | _ => True
+
+/-! # Documents that spell a message (C03, first sentence), declaratively
+
+`SpellsRoot c root m t`: the document `t` is one of the admissible ways to write the message `m`:
+
+* the members of an object may come in **any order**; a property the message holds is given
+  exactly once; **explicit `null` members** may appear anywhere (for absent and for present
+  properties); properties of flattened objects are members of the parent; an exposed oneof is a
+  oneof object over the same message;
+* a oneof object is `{}` (nothing set), or its one member with the `"!type"` member before it,
+  after it, or **left out**;
+* array elements and map values in order;
+* a scalar is **any** token `scalarReflectFromGo` maps to the stored value — the canonical one and
+  the documented alternates (quoted / bare numbers, URL-safe or unpadded base64, RFC 3339 at any
+  offset, float respellings; `Props/C03.lean` lists them as theorems); an enum is the short or the
+  prefixed option name.
+
+The definitions recurse on the document only. -/
+
+/-- the token denotes the scalar value `vv` of kind `k` -/
+def scalarSpells (O : Oracle) (k : ScalarKind) (vv : PVal) (t : PTree) : Prop :=
+  t ≠ .null ∧ ∃ tok, goTok t = some tok ∧ decodeScalar O k tok = .ok (some vv)
+
+mutual
+/-- the tree `t` spells the value `vv` of a field with schema `fld` -/
+def SpellsV (c : Cfg) (fld : Field) (vv : PVal) : PTree → Prop
+  | .obj ms =>
+    match fld, vv with
+    | .object ref, .msg fs =>
+      match c.env.find ref with
+      | some (.object sub) => SpellsM c sub fs [] ms
+      | _ => False
+    | .oneof ref, .msg fs =>
+      match c.env.find ref with
+      | some (.oneof ops) => SpellsO c ops fs ms
+      | _ => False
+    | .map item, .map kvs => SpellsMap c item kvs ms
+    | _, _ => False
+  | .arr xs =>
+    match fld, vv with
+    | .array item, .list vs => SpellsE c item vs xs
+    | _, _ => False
+  | t =>
+    match fld with
+    | .scalar k => scalarSpells c.O k vv t
+    | .enum ref =>
+      match t, c.env.find ref, vv with
+      | .str s _, some (.enum pfx opts), .enum n => enumOptionByName pfx opts s = some n
+      | _, _, _ => False
+    | _ => False
+/-- the members spell the object message `fs`; `used` = JSON names of the properties given so far -/
+def SpellsM (c : Cfg) (props : List PropDef) (fs : Fields) (used : List Bytes) : PMembers → Prop
+  | .nil term =>
+    term = .closed ∧ ∀ p ∈ props, p.jsonName ∉ used →
+      (p.path ≠ [] → getPath fs p.path = none) ∧
+      (p.path = [] → ∀ q ∈ exposedOps c.env p, getPath fs q.path = none)
+  | .cons k _ v rest =>
+    ∃ p, findProp props k = some p ∧
+      ((v = .null ∧ SpellsM c props fs used rest) ∨
+       (k ∉ used ∧ p.path ≠ [] ∧
+         (∃ vv, getPath fs p.path = some vv ∧ SpellsV c p.field vv v) ∧
+         SpellsM c props fs (k :: used) rest) ∨
+       (k ∉ used ∧ p.path = [] ∧ SpellsX c (exposedOps c.env p) fs v ∧
+         SpellsM c props fs (k :: used) rest))
+/-- the value of an exposed-oneof member: a oneof object over the enclosing message -/
+def SpellsX (c : Cfg) (ops : List PropDef) (fs : Fields) : PTree → Prop
+  | .obj ms' => SpellsO c ops fs ms'
+  | _ => False
+/-- the members spell a oneof over the message `fs` -/
+def SpellsO (c : Cfg) (ops : List PropDef) (fs : Fields) : PMembers → Prop
+  | .nil term => term = .closed ∧ ∀ q ∈ ops, getPath fs q.path = none
+  | .cons k1 _ v1 (.nil term) =>
+    term = .closed ∧ k1 ≠ ascii "!type" ∧
+      ∃ q kk vv, findProp ops k1 = some q ∧ q.path = [kk] ∧ aget kk fs = some vv ∧
+        (∀ q' ∈ ops, q'.path ≠ [kk] → getPath fs q'.path = none) ∧ SpellsV c q.field vv v1
+  | .cons k1 _ v1 (.cons k2 _ v2 (.nil term)) =>
+    term = .closed ∧
+      ((k1 = ascii "!type" ∧ k2 ≠ ascii "!type" ∧ (∃ raw, v1 = .str k2 raw) ∧
+        ∃ q kk vv, findProp ops k2 = some q ∧ q.path = [kk] ∧ aget kk fs = some vv ∧
+          (∀ q' ∈ ops, q'.path ≠ [kk] → getPath fs q'.path = none) ∧ SpellsV c q.field vv v2) ∨
+       (k2 = ascii "!type" ∧ k1 ≠ ascii "!type" ∧ (∃ raw, v2 = .str k1 raw) ∧
+        ∃ q kk vv, findProp ops k1 = some q ∧ q.path = [kk] ∧ aget kk fs = some vv ∧
+          (∀ q' ∈ ops, q'.path ≠ [kk] → getPath fs q'.path = none) ∧ SpellsV c q.field vv v1))
+  | _ => False
+/-- the elements spell the list, position by position -/
+def SpellsE (c : Cfg) (item : Field) (vs : List PVal) : PElems → Prop
+  | .nil term => term = .closed ∧ vs = []
+  | .cons t rest => ∃ v vs', vs = v :: vs' ∧ SpellsV c item v t ∧ SpellsE c item vs' rest
+/-- the members spell the map, entry by entry, in the stored order -/
+def SpellsMap (c : Cfg) (item : Field) (kvs : List (Bytes × PVal)) : PMembers → Prop
+  | .nil term => term = .closed ∧ kvs = []
+  | .cons k _ t rest => ∃ v kvs', kvs = (k, v) :: kvs' ∧ SpellsV c item v t ∧ SpellsMap c item kvs' rest
+end
+
+/-- the document `t` spells the message `m` of root `root` -/
+def SpellsRoot (c : Cfg) (root : String) (m : Fields) (t : PTree) : Prop :=
+  match c.env.find root, t with
+  | some (.object props), .obj ms => SpellsM c props m [] ms
+  | some (.oneof ops), .obj ms => SpellsO c ops m ms
+  | _, _ => False
 
 end J5V.Codec
